@@ -4,14 +4,22 @@ import OW.Kernels.DateGenerator
 import OW.Props.GenTieBase
 namespace OW.Props.GenTie
 open OW OW.Gen.K OW.Gen.Prelude
+set_option linter.unusedSimpArgs false
 
 /-! ### models/functions/dates.go -/
+
+/-- a multiple of `b` is a multiple of every divisor `a` of `b` (the three tests of the Gregorian rule may come in any order) -/
+theorem tmod_zero_of_dvd (y a b : Int) (hab : a ∣ b) (h : Int.tmod y b = 0) : Int.tmod y a = 0 :=
+  Int.tmod_eq_zero_of_dvd (Int.dvd_trans hab (Int.dvd_of_tmod_eq_zero h))
 
 theorem gen_eq_DateGenerator_leapYear {α} [Num α] (y : Int) :
     dateGenerator.leapYear (α := α) y = Dates.leapYear y := by
   unfold dateGenerator.leapYear Dates.leapYear
+  have d1 := tmod_zero_of_dvd y 4 100 (by decide)
+  have d2 := tmod_zero_of_dvd y 4 400 (by decide)
+  have d3 := tmod_zero_of_dvd y 100 400 (by decide)
   by_cases h4 : Int.tmod y 4 = 0 <;> by_cases h100 : Int.tmod y 100 = 0 <;> by_cases h400 : Int.tmod y 400 = 0 <;>
-    simp [h4, h100, h400]
+    simp_all
 
 theorem gen_eq_DateGenerator_daysInMonth {α} [Num α] (m y : Int) :
     dateGenerator.daysInMonth (α := α) m y = Dates.daysInMonth m y := by
@@ -47,6 +55,22 @@ theorem gen_eq_DateGenerator_dayOfYear {α} [Num α] (d m y : Int) :
     rw [this]
     rfl
 
+/-- a month whose length the table gives is one of the twelve (so the month can only pass December by the increment at the end
+of a month: the test `m > 12` may stand inside that branch or after it) -/
+theorem daysInMonth_some_le (m y dim : Int) (h : Dates.daysInMonth m y = some dim) : 1 ≤ m ∧ m ≤ 12 := by
+  unfold Dates.daysInMonth at h
+  by_cases h2 : m = 2
+  · omega
+  · have h2' : (m == 2) = false := by simpa using h2
+    simp only [h2', Bool.false_and, Bool.false_eq_true, ↓reduceIte] at h
+    split at h
+    · cases h
+    · rename_i hneg
+      by_cases hlt : (m - 1).toNat < 12
+      · omega
+      · rw [List.getElem?_eq_none (by simp [Dates.dimTable]; omega)] at h
+        cases h
+
 /-- `dateGenerator`: the three start parameters are truncated with `int(…)` before the loop (`init`; `d, m, y` are hidden
 state: carried between iterations, not returned); one iteration — day of year through the translated helpers `_dayOfYear`,
 `daysInMonth`, `leapYear` and the table `DAYS_IN_MONTH`, then the calendar increment — is `Dates.step` (`none` = the index
@@ -61,14 +85,18 @@ theorem gen_eq_DateGenerator {α} [Num α] (startDate startMonth startYear tick 
            ((Num.ofInt r.date : α), (Num.ofInt r.month : α), (Num.ofInt r.year : α), (Num.ofInt r.doy : α)))) := by
   refine ⟨rfl, rfl, ?_⟩
   unfold dateGenerator.step Dates.step
-  simp only [gen_eq_DateGenerator_dayOfYear, gen_eq_DateGenerator_daysInMonth]
+  simp only [gen_unfold, ↓gen_eq_DateGenerator_dayOfYear, ↓gen_eq_DateGenerator_daysInMonth]
   cases Dates.dayOfYear t.d t.m t.y with
   | none => rfl
   | some doy =>
-    cases Dates.daysInMonth t.m t.y with
+    cases hd : Dates.daysInMonth t.m t.y with
     | none => rfl
     | some dim =>
+      have hm := daysInMonth_some_le t.m t.y dim hd
       dsimp only
-      split <;> split <;> simp_all
+      have e1 : (t.d + 1 ≤ dim) = ¬ (dim < t.d + 1) := by simp only [Int.not_lt]
+      simp only [gt_iff_lt, ge_iff_le, e1]
+      by_cases c1 : dim < t.d + 1 <;> by_cases c2 : 12 < t.m + 1 <;> by_cases c3 : 12 < t.m <;>
+        simp only [c1, c2, c3, ↓reduceIte, not_true_eq_false, not_false_eq_true] <;> first | rfl | omega
 
 end OW.Props.GenTie
